@@ -52,6 +52,11 @@ D = {
 SPL = [';', 'create', 'begin', 'end', 'declare', 'a', '(', ')', 'if', 'case', 'go', '\n', '--c\n', 'end if']
 
 
+# tiny alphabets explored deep: the assignment pass re-visits swallowed tokens with stale indices (needs 7 tokens)
+ASG = ['a', ',', ':=', ';', ' ', '=']
+MID = ['a', ',', ':=', ';', '::', 'as', '.', '=', '(', ')']
+
+
 def count(alpha, max_len):
     return sum(len(alpha) ** k for k in range(1, max_len + 1))
 
